@@ -689,36 +689,67 @@ func (nr *netRun) checkC19(x *xfer) {
 	a, b := nr.A, nr.B
 	sa, okA := a.State(x.chid)
 	sb, okB := b.State(x.chid)
-	// initiator: a voucher is recorded only after its send succeeded; failed sends leave the log unchanged
-	for _, op := range nr.ops {
-		if op.X != x || !op.Call.Returned || op.Life != op.Node.life {
+	// initiator: a voucher is recorded only after its send succeeded; failed sends leave the log unchanged. The same
+	// content may be sent several times (also twice in a row): every successful send is one entry, in order.
+	type tally struct{ ok, fail int }
+	for _, kind := range []string{"SendVoucher", "SendVoucherResult"} {
+		log, have, final := sa.Vouchers, okA, sa.Status
+		what, who := "voucher-log", "initiator"
+		if kind == "SendVoucherResult" {
+			log, have, final = sb.Results, okB, sb.Status
+			what, who = "result-log", "responder"
+		}
+		if !have {
 			continue
 		}
-		switch op.Kind {
-		case "SendVoucher":
-			if !okA {
+		by := map[string]*tally{}
+		var order, okSeq []string
+		for _, op := range nr.ops {
+			if op.X != x || op.Kind != kind || !op.Call.Returned || op.Life != op.Node.life {
 				continue
 			}
-			n := count(sa.Vouchers, op.Arg)
-			if op.Call.Err == nil && n != 1 && !isTerminal(sa.Status) {
-				r.Failf("C19", "voucher-log", fmt.Sprintf("sent-ok|recorded=%d", n), "initiator sent voucher %s successfully but its log holds it %d times", op.Arg, n)
-			}
-			if op.Call.Err != nil && n != 0 {
-				r.Failf("C19", "voucher-log", "send-failed|recorded", "SendVoucher failed (%v) yet the voucher is in the initiator's log", op.Call.Err)
+			t := by[op.Arg]
+			if t == nil {
+				t = &tally{}
+				by[op.Arg] = t
+				order = append(order, op.Arg)
 			}
 			if op.Call.Err == nil {
-				r.Probe("voucher-sent")
+				t.ok++
+				okSeq = append(okSeq, op.Arg)
+				if kind == "SendVoucher" {
+					r.Probe("voucher-sent")
+				}
+			} else {
+				t.fail++
 			}
-		case "SendVoucherResult":
-			if !okB {
-				continue
+		}
+		for _, arg := range order {
+			t, n := by[arg], count(log, arg)
+			if t.ok > 1 {
+				r.Probe("same-content-sent-repeatedly")
 			}
-			n := count(sb.Results, op.Arg)
-			if op.Call.Err == nil && n != 1 && !isTerminal(sb.Status) {
-				r.Failf("C19", "result-log", fmt.Sprintf("sent-ok|recorded=%d", n), "responder sent voucher result %s successfully but its log holds it %d times", op.Arg, n)
+			if n > t.ok {
+				cause := "more-than-sent"
+				if t.fail > 0 {
+					cause = "send-failed|recorded"
+				}
+				r.Failf("C19", what, cause, "%s sent %s successfully %d time(s) (and %d failed sends) but its log holds it %d times", who, arg, t.ok, t.fail, n)
 			}
-			if op.Call.Err != nil && n != 0 {
-				r.Failf("C19", "result-log", "send-failed|recorded", "SendVoucherResult failed (%v) yet the result is in the responder's log", op.Call.Err)
+			if n < t.ok && !isTerminal(final) {
+				r.Failf("C19", what, fmt.Sprintf("sent-ok=%d|recorded=%d", t.ok, n), "%s sent %s successfully %d time(s) but its log holds it %d times", who, arg, t.ok, n)
+			}
+		}
+		if !isTerminal(final) {
+			// order: the successful sends, in call order, form a subsequence of the log
+			i := 0
+			for _, e := range log {
+				if i < len(okSeq) && e == okSeq[i] {
+					i++
+				}
+			}
+			if i < len(okSeq) {
+				r.Failf("C19", what, "order", "%s's log %v does not contain its successful sends %v in order", who, log, okSeq)
 			}
 		}
 	}
